@@ -20,6 +20,7 @@ class ClassInfo:
         self.bases = []           # textual base expressions
         self.methods = {}         # name -> FunctionDef
         self.props = set()
+        self.setters = {}         # property name -> setter FunctionDef
         self.classmethods = set()
         self.staticmethods = set()
         self.nested = {}          # name -> ClassInfo
@@ -51,6 +52,8 @@ class ModuleInfo:
                 # property setter/deleter does not replace the getter for our purposes
                 decos = [ast.unparse(d) for d in n.decorator_list]
                 if any(d.endswith('.setter') or d.endswith('.deleter') for d in decos):
+                    if cls is not None and any(d.endswith('.setter') for d in decos):
+                        cls.setters[n.name] = n
                     continue
                 if any(d.endswith('overload') for d in decos):
                     continue
